@@ -454,8 +454,13 @@ def impl_function(f, lang, qual=""):
         elif k == "cstr_out":
             lines.append('    vf_out_str(%s, %d, %s); vf_log_s("%s", %s, -1);' % (n, p["charlen"] - 1, d, n, n))
         elif k == "cstr_inout":
-            # same length as received (caller's buffer is only known to hold what it passed)
-            lines.append('    vf_out_str(%s, (long)strlen(%s), %s); vf_log_s("%s", %s, -1);' % (n, n, d, n, n))
+            capn = next((q["name"] for q in f["params"] if q.get("role") == "cap"), None)
+            if capn:
+                # the caller states the capacity of its buffer (excluding the NUL): the library may grow the string up to it
+                lines.append('    vf_out_str(%s, (long)%s, %s); vf_log_s("%s", %s, -1);' % (n, capn, d, n, n))
+            else:
+                # same length as received (caller's buffer is only known to hold what it passed)
+                lines.append('    vf_out_str(%s, (long)strlen(%s), %s); vf_log_s("%s", %s, -1);' % (n, n, d, n, n))
         elif k in ("str_ref_out", "str_ref_inout"):
             lines.append('    { char vfb[64]; vf_out_str(vfb, 40, %s); %s = vfb; } vf_log_s("%s", %s.data(), (long)%s.size());' % (d, n, n, n, n))
         elif k in ("str_ptr_out", "str_ptr_inout"):
@@ -724,7 +729,8 @@ def model_call(f, args, this_serial=None):
             send[n] = repr_str(v)
             out[n] = v
         elif k == "cstr_inout":
-            v = ostr(dk, len(args[n].encode("latin-1")))
+            capv = next((args[q["name"]] for q in f["params"] if q.get("role") == "cap"), None)
+            v = ostr(dk, capv if capv is not None else len(args[n].encode("latin-1")))
             send[n] = repr_str(v)
             out[n] = v
         elif k in ("str_ref_out", "str_ref_inout", "str_ptr_out", "str_ptr_inout"):
